@@ -217,7 +217,7 @@ fn shared() -> Arc<Shared> {
 
 fn pick(sh: &Shared, stale: bool, r: &mut Rng) -> Option<(usize, Arc<Blocker>)> {
     if stale {
-        let v = sh.old.lock().unwrap();
+        let v = sh.old.lock().unwrap_or_else(|e| e.into_inner());
         if !v.is_empty() {
             let (i, w) = &v[r.below(v.len() as u64) as usize];
             if let Some(b) = w.upgrade() {
@@ -225,7 +225,7 @@ fn pick(sh: &Shared, stale: bool, r: &mut Rng) -> Option<(usize, Arc<Blocker>)> 
             }
         }
     }
-    sh.cur.lock().unwrap().clone()
+    sh.cur.lock().unwrap_or_else(|e| e.into_inner()).clone()
 }
 
 /// An unparker goes quiet after `MAX_PER_ROUND` unparks without progress of the parker (ONE unpark after the
@@ -578,8 +578,8 @@ pub fn build_blocker(rng: &mut Rng, tier: u32) -> LiveBuilt {
                     let b = Blocker::current();
                     ret("blk.new", i as u64);
                     s2.sit_out.store(parks[0].1, Ordering::SeqCst);
-                    s2.old.lock().unwrap().push((i, Arc::downgrade(&b)));
-                    *s2.cur.lock().unwrap() = Some((i, b.clone()));
+                    s2.old.lock().unwrap_or_else(|e| e.into_inner()).push((i, Arc::downgrade(&b)));
+                    *s2.cur.lock().unwrap_or_else(|e| e.into_inner()) = Some((i, b.clone()));
                     for (k, &(d, sit)) in parks.iter().enumerate() {
                         s2.sit_out.store(sit, Ordering::SeqCst);
                         s2.timed_now.store(d != 0, Ordering::SeqCst);
@@ -593,12 +593,12 @@ pub fn build_blocker(rng: &mut Rng, tier: u32) -> LiveBuilt {
                             Ok(()) => {}
                             Err(ParkError::Timeout) => {
                                 if d == 0 {
-                                    f2.lock().unwrap().push(format!("round {i}: Timeout from an untimed park"));
+                                    f2.lock().unwrap_or_else(|e| e.into_inner()).push(format!("round {i}: Timeout from an untimed park"));
                                 } else if k == 0 && el < Duration::from_millis(d) {
                                     // exact lower bound for the FIRST park on a fresh blocker only: a later park on
                                     // the same blocker may be ended early by the stale timer of an earlier one (the
                                     // spurious wake a re-used Park is allowed, see the example in Props/C02.lean)
-                                    f2.lock().unwrap().push(format!(
+                                    f2.lock().unwrap_or_else(|e| e.into_inner()).push(format!(
                                         "round {i}: Timeout after {} us, before the requested {} ms",
                                         el.as_micros(),
                                         d
@@ -606,13 +606,13 @@ pub fn build_blocker(rng: &mut Rng, tier: u32) -> LiveBuilt {
                                 }
                             }
                             Err(ParkError::Canceled) => {
-                                f2.lock().unwrap().push(format!("round {i}: Canceled although nobody cancels"))
+                                f2.lock().unwrap_or_else(|e| e.into_inner()).push(format!("round {i}: Canceled although nobody cancels"))
                             }
                         }
                         s2.progress.fetch_add(1, Ordering::SeqCst);
                     }
                     call("blk.drop", i as u64, 0);
-                    let c = s2.cur.lock().unwrap().take();
+                    let c = s2.cur.lock().unwrap_or_else(|e| e.into_inner()).take();
                     drop(c);
                     drop(b);
                     ret("blk.drop", 0);
@@ -695,7 +695,7 @@ pub fn build_blocker(rng: &mut Rng, tier: u32) -> LiveBuilt {
             if p != total {
                 out.push(format!("parker finished {p} of {total} parks"));
             }
-            out.extend(fails.lock().unwrap().drain(..));
+            out.extend(fails.lock().unwrap_or_else(|e| e.into_inner()).drain(..));
             out
         }),
     }
